@@ -305,6 +305,8 @@ StepVal(g, fr, i) == i.op = "val" /\ \E b \in DecChoices :
     /\ valid' = IF b THEN valid \cup ReachTags(heap, Val(fr, i.a[1])) ELSE valid
     /\ UNCHANGED <<p, heap, crashed>>
 
+StepNot(g, fr, i) == i.op = "not" /\ Upd(g, SetD(fr, i.d, BoolV(~Val(fr, i.a[1]).b)), heap, {})
+
 StepBrv(g, fr, i) == i.op = "brv" /\
     LET b == (Val(fr, i.a[1]).b) # (i.s = "neg") IN
     Upd(g, [fr EXCEPT !.pc = IF b THEN i.l[1] ELSE i.l[2]], heap, {})
@@ -427,7 +429,7 @@ Exec(g) ==
     IF fr.mode # "run" THEN Unwind(g, fr)
     ELSE LET i == Ins(g) IN
          \/ StepSrc(g, fr, i) \/ StepCopy(g, fr, i) \/ StepZero(g, fr, i) \/ StepMix(g, fr, i) \/ StepSan(g, fr, i)
-         \/ StepSink(g, fr, i) \/ StepBt(g, fr, i) \/ StepProbe(g, fr, i)
+         \/ StepSink(g, fr, i) \/ StepBt(g, fr, i) \/ StepProbe(g, fr, i) \/ StepNot(g, fr, i)
          \/ StepNew(g, fr, i) \/ StepCellParam(g, fr, i) \/ StepGref(g, fr, i)
          \/ StepLoad(g, fr, i) \/ StepStore(g, fr, i) \/ StepFaddr(g, fr, i) \/ StepField(g, fr, i)
          \/ StepMkStruct(g, fr, i)
